@@ -126,13 +126,21 @@ def run(tier):
                                       'ksum')})
     verdicts = validate_traces('ArlPack_Trace', traces, out, shard=2500)
     settle(out, traces, verdicts, None)
+    # second sentence of the property: packed-bit files
+    import arlfile
+    ares = arlfile.run_arl_files(out, tier)
+    out.cov['evaluations'] += len(ares)
+    out.cov['distinct_nontrivial'] += len(ares)
     out.assumptions = [
         'fields are integers times 2**s: float32 arithmetic in pack2d/unpack '
         'is exact, so bytes and reconstruction must equal the integer model',
         'the worst case over arbitrary float32 fields (rounding of LOG, '
         'accumulated error along long rows) is not decided',
-        'file layout (index record, variable definitions) is not covered '
-        'by this check']
+        'files: grids of 300-323 cells (the library reads LENH bytes after '
+        'the 158-byte fixed part of the index record, so that window must '
+        'fit into the record), 1-2 surface and layer variables, 2 or 4 '
+        'levels, 1-2 times; the library writer is not exercised (it raises '
+        'for every input on this tree: DESIGN.md I.4)']
     return out.finish()
 
 
